@@ -184,7 +184,14 @@ fn run_case(c: &Case) -> Result<(), String> {
 
 fn run_case_inner(c: &Case) -> Result<(), String> {
     let reference = RefScanner::new(&c.modes);
-    let mut scanner = build(&c.modes).map_err(|e| format!("build failed: {e}"))?;
+    // the simple builder (token type = pattern index) is used whenever the case has that shape
+    let simple = c.family == "stream" && c.modes.len() == 1 && c.modes[0].trans.is_empty()
+        && c.modes[0].pats.iter().enumerate().all(|(i, p)| p.tt == i && p.la.is_none());
+    let mut scanner = if simple {
+        ScannerBuilder::new().add_patterns(c.modes[0].pats.iter().map(|p| p.p.clone()).collect::<Vec<_>>()).build().map_err(|e| format!("build failed: {e}"))?
+    } else {
+        build(&c.modes).map_err(|e| format!("build failed: {e}"))?
+    };
     let input = c.input.as_str();
     // operations on the Scanner before the iterator exists must not matter
     for op in &c.ops {
